@@ -46,8 +46,20 @@ func init() {
 			{
 				Name:             "members",
 				Bubble:           true,
-				NumRuns:          func(c *Ctx) int64 { return int64(len(c14units(c))) },
+				NumRuns:          func(c *Ctx) int64 { return int64(len(c14cachedUnits(c, false))) },
 				Plan:             planC14members,
+				Exec:             execC14,
+				CrashIsViolation: true,
+				HangIsViolation:  true,
+				Exhaustive:       func(c *Ctx) bool { return c.Tier == "thorough" },
+			},
+			{
+				// the same sweep over the documents as their authors wrote them: what the
+				// normalisers and scenario code see before a first calculation filled anything in
+				Name:             "sources",
+				Bubble:           true,
+				NumRuns:          func(c *Ctx) int64 { return int64(len(c14cachedUnits(c, true))) },
+				Plan:             planC14sources,
 				Exec:             execC14,
 				CrashIsViolation: true,
 				HangIsViolation:  true,
@@ -94,11 +106,26 @@ func init() {
 	})
 }
 
-func c14units(c *Ctx) []c08unit {
+func c14units(c *Ctx) []c08unit { return c14unitsOf(c, false) }
+
+// c14tree is what the sweep walks: the calculated envelope, or (sources) the
+// document as its author wrote it, before any calculation filled anything in.
+func c14tree(d *Doc, src bool) *JV {
+	if src {
+		return c04sourceDoc(d)
+	}
+	v, err := ParseJV(d.Env)
+	if err != nil {
+		return nil
+	}
+	return v
+}
+
+func c14unitsOf(c *Ctx, src bool) []c08unit {
 	var all []c08unit
 	for _, d := range c.Corpus.Valid {
-		v, err := ParseJV(d.Env)
-		if err != nil {
+		v := c14tree(d, src)
+		if v == nil {
 			continue
 		}
 		n := len(Walk(v, ""))
@@ -110,8 +137,13 @@ func c14units(c *Ctx) []c08unit {
 		r := RNG(c.Seed, 0, 14)
 		var pick []c08unit
 		seen := map[string]bool{}
+		pct := 10
+		if src {
+			pct = 40
+			r = RNG(c.Seed, 1, 14)
+		}
 		for _, u := range all {
-			if r.IntN(100) < 10 || !seen[u.doc] {
+			if r.IntN(100) < pct || (!seen[u.doc] && !src) {
 				pick = append(pick, u)
 				seen[u.doc] = true
 			}
@@ -123,21 +155,36 @@ func c14units(c *Ctx) []c08unit {
 
 var c14unitCache = map[string][]c08unit{}
 
-func planC14members(c *Ctx, run int64) *Plan {
-	key := fmt.Sprintf("%s/%d", c.Tier, c.Seed)
+func planC14members(c *Ctx, run int64) *Plan { return planC14sweep(c, run, false) }
+func planC14sources(c *Ctx, run int64) *Plan { return planC14sweep(c, run, true) }
+
+func c14cachedUnits(c *Ctx, src bool) []c08unit {
+	key := fmt.Sprintf("%s/%d/%v", c.Tier, c.Seed, src)
 	c08mu.Lock()
+	defer c08mu.Unlock()
 	us, ok := c14unitCache[key]
 	if !ok {
-		us = c14units(c)
+		us = c14unitsOf(c, src)
 		c14unitCache[key] = us
 	}
-	c08mu.Unlock()
+	return us
+}
+
+func planC14sweep(c *Ctx, run int64, src bool) *Plan {
+	us := c14cachedUnits(c, src)
 	u := us[run]
 	d := c.Corpus.Get(u.doc)
 	p := &Plan{Prop: "C14", Check: "members", Seed: c.Seed, Run: run, Str: map[string]string{"doc": u.doc}}
-	v, _ := ParseJV(d.Env)
+	if src {
+		p.Check = "sources"
+		p.Str["src"] = "1"
+	}
+	v := c14tree(d, src)
 	nodes := Walk(v, "")
 	r := RNG(c.Seed, run, 15)
+	if src {
+		r = RNG(c.Seed, run, 17)
+	}
 	id := 0
 	add := func(k, ptr string, o Op) {
 		id++
@@ -149,7 +196,7 @@ func planC14members(c *Ctx, run int64) *Plan {
 	if to > len(nodes) {
 		to = len(nodes)
 	}
-	if u.from == 0 {
+	if u.from == 0 && !src {
 		for _, k := range []string{"empty", "null", "garbage", "number", "object"} {
 			add("sigs", "/sigs", Op{S2: k})
 		}
@@ -591,11 +638,18 @@ func execC14(x *X) {
 	}
 	t0 := time.Now()
 	base, _ := ParseJV(d.Env)
+	fromSource := x.P.Str["src"] == "1"
+	if fromSource {
+		if base = c14tree(d, true); base == nil {
+			x.R.Infra = "source document missing"
+			return
+		}
+	}
 	for i, op := range x.P.Ops {
 		x.Entropy(op.ID)
 		nv := len(x.R.Violations)
 		switch x.P.Check {
-		case "members":
+		case "members", "sources":
 			src := base
 			if op.B && strings.HasPrefix(op.S, "/head") {
 				if sb, err := ParseJV(x.signedEnv(d)); err == nil && sb.Get("sigs") != nil {
@@ -616,6 +670,9 @@ func execC14(x *X) {
 			}
 			if op.K == "code" {
 				x.Probe("unknown-code-substituted")
+			}
+			if fromSource {
+				x.Probe("source-document-damaged-before-first-calculation")
 			}
 			x.feed(dam, where, int(op.J), nil, nil)
 			// the same damage inside the bare document (what `gobl build` gets)
